@@ -1897,7 +1897,7 @@ theorem refPrint_nil (v : Val) (s : Bytes) (h : refPrint F ae [] v = .val s) :
 
 mutual
   theorem ref_le_spec_cmd : ∀ (c : Cmd) (env : SEnv) (r : Bytes × SEnv), plainCmd c = true →
-      refCmd F ae c env = .val r → Spec.Eval.renderCmd reg hasBundle (ae != .off) entry call c env = .val r
+      refCmd F ae c env = .val r → Spec.Eval.renderCmd reg hasBundle (ae != .off) entry call none c env = .val r
     | .rawText p t, env, r, _, h => by
       rw [Spec.Eval.renderCmd]
       simpa [refCmd] using h
@@ -1911,7 +1911,8 @@ mutual
       obtain ⟨s0, hs0, rfl⟩ := refPrint_nil F ae hesc v s hs
       simp only [Out.val.injEq] at h
       subst h
-      simp [hv, hs0, Spec.Eval.Out.bind]
+      have hu : Spec.Eval.isUndef v = false := by cases v <;> simp_all [Spec.Eval.isUndef, Spec.Eval.showVal]
+      simp [hv, hs0, hu, Spec.Eval.Out.bind, Spec.Eval.runDirs]
     | .letValue p x e, env, r, _, h => by
       rw [Spec.Eval.renderCmd]
       simpa [refCmd] using h
@@ -1971,12 +1972,12 @@ mutual
     | .template .., _, _, _, h => by simp [refCmd] at h
     | .soyDoc .., _, _, _, h => by simp [refCmd] at h
   theorem ref_le_spec_block : ∀ (b : Block) (env : SEnv) (out : Bytes), plainBlock b = true →
-      refBlock F ae b env = .val out → Spec.Eval.renderBlock reg hasBundle (ae != .off) entry call b env = .val out
+      refBlock F ae b env = .val out → Spec.Eval.renderBlock reg hasBundle (ae != .off) entry call none b env = .val out
     | .mk p cmds, env, out, hp, h => by
       rw [Spec.Eval.renderBlock]
       exact ref_le_spec_cmds cmds env out (by simpa [plainBlock] using hp) (by simpa [refBlock] using h)
   theorem ref_le_spec_cmds : ∀ (cs : CmdList) (env : SEnv) (out : Bytes), plainCmds cs = true →
-      refCmds F ae cs env = .val out → Spec.Eval.renderCmds reg hasBundle (ae != .off) entry call cs env = .val out
+      refCmds F ae cs env = .val out → Spec.Eval.renderCmds reg hasBundle (ae != .off) entry call none cs env = .val out
     | .nil, env, out, _, h => by
       rw [Spec.Eval.renderCmds]
       simpa [refCmds] using h
@@ -1991,7 +1992,7 @@ mutual
       rw [ref_le_spec_cmds rest r1.2 more hp.2 h2]
       exact h
   theorem ref_le_spec_conds : ∀ (cs : CondList) (env : SEnv) (out : Bytes), plainConds cs = true →
-      refConds F ae cs env = .val out → Spec.Eval.renderConds reg hasBundle (ae != .off) entry call cs env = .val out
+      refConds F ae cs env = .val out → Spec.Eval.renderConds reg hasBundle (ae != .off) entry call none cs env = .val out
     | .nil, env, out, _, h => by
       rw [Spec.Eval.renderConds]
       simpa [refConds] using h
@@ -2026,7 +2027,7 @@ theorem gen_correct_cmds_spec (hesc : EscapeHtmlIs F) (buf : Bytes) (hbuf : buf.
     (hrel : EnvRel sc env jenv) (hb : BufIs buf jenv out) (fuel : Nat) (hx : execStmts F fuel r.1 jenv = .ok jenv')
     (reg : Registry.Reg) (hasBundle : Bool) (entry : Spec.Eval.Binds)
     (call : Registry.Tmpl → Spec.Eval.CallEnv → Out Bytes) :
-    ∃ text, Spec.Eval.renderCmds reg hasBundle (ae != .off) entry call cmds env = .val text ∧
+    ∃ text, Spec.Eval.renderCmds reg hasBundle (ae != .off) entry call none cmds env = .val text ∧
       BufIs buf jenv' (out ++ text) := by
   obtain ⟨text, ht, hb', _⟩ := cmds_ok F ae buf hbuf cmds fuel sc r env jenv jenv' out h hs hrel hb hx
   exact ⟨text, ref_le_spec_cmds F ae hesc reg hasBundle entry call cmds env text hplain ht, hb'⟩
